@@ -41,7 +41,7 @@ type c13Case struct {
 var c13TreeCfg = h.TreeCfg{
 	MaxEntries: 12, MaxDepth: 3, Names: []string{"a", "b", "ab", "a-b", "a.b", "c", "sub", "d", "é", "x y"},
 	Kinds:  []h.Kind{h.KFile, h.KFile, h.KFile, h.KSymlink, h.KFifo, h.KChar, h.KBlock},
-	Xattrs: true, XattrNS: []string{"user.", "trusted."}, Hardlinks: true, BigFiles: true,
+	Xattrs: true, XattrNS: []string{"user.", "trusted."}, Hardlinks: true, BigFiles: true, Caps: true,
 	SymTargets: []string{"a", "b", "../a", "/a", "/sub", "sub", "dangling", "../../outside", "."},
 }
 
